@@ -124,6 +124,53 @@ def info_on_damaged(run):
     return n
 
 
+def info_scan_over_definitions(run):
+    """Metadata-only scanning of a stream that holds table-definition messages (the prepbufr sample) with their data sections
+    overwritten: filtered or not, the scan never looks into a data section - definition messages included - and delivers the
+    messages the filter selects, each with its declared extent and without template data."""
+    from pybufrkit.decoder import Decoder, generate_bufr_message
+    with open(os.path.join(REPO, 'tests', 'data', 'prepbufr.bufr'), 'rb') as f:
+        data = f.read()
+    plain = list(generate_bufr_message(Decoder(), data, info_only=True))
+    cats = [m.data_category.value for m in plain]
+    spans = []
+    at = 0
+    for m in plain:
+        at = data.index(b'BUFR', at)
+        spans.append((at, m.length.value))
+        at += m.length.value
+    dam = bytearray(data)
+    for (a, n), m in zip(spans, plain):
+        # section 4 starts after sections 0-3 (their lengths are metadata); its own length is read from its first three octets
+        off4 = a + 8 + sum(x.section_length.value for x in m.sections if x.get_metadata('index') in (1, 2, 3))
+        len4 = int.from_bytes(data[off4:off4 + 3], 'big')
+        if off4 + len4 + 4 != a + n:
+            raise MachineryError('prepbufr sample: section 4 of a message is not where the section lengths say')
+        for k in range(off4 + 4, off4 + len4):
+            dam[k] = 0xFF
+    dam = bytes(dam)
+    n = 0
+    for filt, want in ((None, list(range(len(cats)))), ('${%data_category} == 11', [i for i, c in enumerate(cats) if c == 11]),
+                       ('${%data_category} != 11', [i for i, c in enumerate(cats) if c != 11])):
+        run.traces += 1
+        n += 1
+        feat = 'filter' if filt else 'nofilter'
+        try:
+            got = list(generate_bufr_message(Decoder(), dam, info_only=True, filter_expr=filt))
+        except Exception as e:
+            run.violation(('info-scan', 'definitions', 'reads-data:' + type(e).__name__, feat),
+                          'metadata-only scan (%s) of the prepbufr stream with damaged data sections raised %r' % (filt or 'no filter', e), {'kind': 'info-defs', 'filter': filt})
+            continue
+        if [bytes(m.serialized_bytes) for m in got] != [dam[spans[i][0]:spans[i][0] + spans[i][1]] for i in want]:
+            run.violation(('info-scan', 'definitions', 'yielded-differ', feat), 'metadata-only scan (%s): %d messages delivered, %d selected by the filter' % (
+                filt or 'no filter', len(got), len(want)), {'kind': 'info-defs', 'filter': filt})
+        elif any(getattr(m, '_template_data', None) is not None for m in got):
+            run.violation(('info-scan', 'definitions', 'data-decoded', feat), 'a metadata-only scan delivered a message with decoded data', {'kind': 'info-defs', 'filter': filt})
+        else:
+            run.nontriv(('info-defs', filt))
+    return n
+
+
 def run(run):
     import multiprocessing as mp
     from .. import fm94
@@ -179,6 +226,7 @@ def run(run):
         scases = list(res.iter_emitted())
         stream.replay_cases(run, scases, 'info-scan')
         run.notes['info_only_damaged_variants'] = info_on_damaged(run)
+        run.notes['info_scans_over_definition_messages'] = info_scan_over_definitions(run)
         from .. import cmd
         cmd.run_commands(run, wd, ['query'], seed())          # the query command: a % query decodes metadata only (Cmd.tla)
     finally:
